@@ -211,6 +211,9 @@ def p_c12(tier):
         sh.append(mcx("scribble-%s" % tn, prop="C12", table=t, cap=6, name_alpha=alpha, args_alpha="1A", max_name=3 if quick else 4, max_args=7, D=1, dev=DEV,
                       lines=2, crlf=1, blank=1, refuse_read=1, refuse_write=1, scribble=1, codes_W="OK,ERROR,NEXT", codes_R="OK,DATA_OK,DATA_NEXT,ERROR",
                       codes_U="OK,ERROR,LIST", codes_T="OK,DATA_OK,ERROR", max_inv=1, mon="C12"))
+    for ring in (1, 2):
+        sh.append(duplex_overlong("overlong-with-event-r%d" % ring, ring, ring % 2 + 1, "C12", "C12"))
+        sh.append(duplex_overlong("overlong-with-event-sep-r%d" % ring, ring, 0, "C12", "C12"))
     return {"shards": sh, "require": ["lines_done", "stutters_checked"],
             "technique": "explicit-state model checking: stutter premise (refused io leaves the whole parser state unchanged) in every reachable state, plus all schedules against the reference with failed reads scribbling over the character cell",
             "bounds": "input families of C01 and C10; refusal runs of any length are covered by the self-loop of the stutter step",
@@ -246,6 +249,9 @@ def c13_shards(tier, prop="C13", mon="C13"):
             sh.append(mcx("queue-traffic-r%d-sh%d" % (ring, shared), ring=ring, prop=prop, table=T_Q, cap=12, shared=shared, name_alpha="HK", max_name=2, args_alpha="1", max_args=0,
                           suffix_mask=5, lines=0 if full else 1, refuse_read=1, refuse_write=1, codes_W="HOLD,OK", codes_U="OK", ecodes_R="OK,DATA_OK,DATA_NEXT,HEXIT_OK,HEXIT_ERR", ecodes_T="OK",
                           max_inv=1, tok=1, ev=("+a:R,+b:R,+d:R" if ring < 3 else "+a:R,+d:R"), act="trigger,hold,queries", trig_budget=0 if full else ring + 2, mon=mon))
+    for ring in (1, 2):
+        sh.append(duplex_cursor("queue-cursor-r%d" % ring, ring, prop, mon, budget=2, extra=dict(act="trigger,hold,queries")))
+        sh.append(same_cmd("queue-samecmd-r%d" % ring, ring, prop, mon, extra=dict(act="trigger,queries")))
     if not quick:
         sh.append(mcx("queue-traffic-r8", ring=8, prop=prop, table=T_Q, cap=12, shared=0, name_alpha="HK", max_name=2, args_alpha="1", max_args=0, suffix_mask=5, lines=0,
                       refuse_read=1, refuse_write=1, codes_W="HOLD,OK", codes_U="OK", ecodes_R="OK", max_inv=1, tok=1, ev="+a:R,+d:R", act="trigger,hold,queries", trig_budget=0, mon=mon))
@@ -485,6 +491,8 @@ PLANS["C05"] = p_c05
 def p_c06(tier):
     sh = sw_shards("args", "C06", tier, 36 if tier == "quick" else 54)
     sh += [s for s in c10_shards("quick", mon="C06", prop="C06") if "cmd-R" in s["tag"] or "cmd-T" in s["tag"] or "evt" in s["tag"]]
+    # every command shape (handler subsets x flags x variable profiles, also '.var set, var_num 0') with every request form: '?' after '=' reaches the write handler verbatim unless a TEST form exists
+    sh += sw_shards("describe", "C06", tier, 4, "--family", "shapes", "--pairs", 0, tagp="shapes")
     return {"shards": sh, "require": ["runs", "overlong", "lines_ok"],
             "technique": "exhaustive positional byte sweep on the real parser (write handlers) and explicit-state exploration of the return-code scenario (read/test handlers of both machines)",
             "bounds": "caps 6,7,8,16 (thorough also 24,32) in separate, shared-even and shared-odd layouts; plain, implicit and variable-backed write commands; argument length 0..3*cap with every byte value (except LF) at every position; "
